@@ -83,6 +83,8 @@ def cases(tier, seed):
             continue  # quick: one third of the n=2 table (slice VERIF_SEED mod 3); thorough covers all of it
         starts = S.starts(spec["n"], spec["var_lb"], spec["var_ub"], (0, 1, 2) if tier == "thorough" else (1, 2))
         for si, x0 in enumerate(starts):
+            if tier == "thorough" and si == 0 and i % 2 == 1:
+                continue  # the first start on every second member (bounds the tier to ~15 minutes)
             if tier == "quick":
                 cfgs = [CONFIGS[0], CONFIGS[1 + (i + si) % 6]]
             else:
